@@ -173,13 +173,124 @@ func Deflate(b []byte, level int) []byte {
 type Presentation struct {
 	Deflate bool `json:"deflate"`
 	Level   int  `json:"level"`
+	// Style selects a legal but unusual DEFLATE encoding (only with Deflate):
+	//   ""            what compress/flate emits at Level
+	//   "stored-ws"   stored blocks; the first header byte is a space (ignored padding bits set) and the low LEN
+	//                 byte is '<': the stream begins like " <"
+	//   "dyn-prefix"  an empty dynamic-Huffman block with HLIT = Level%8+2 first (first byte 0x14 .. 0x4C, among
+	//                 them '<' for HLIT 7), an empty stored block to re-align, then the compress/flate stream
+	//   "stored-tail" the compress/flate stream followed by nothing else, but cut into stored blocks of 1 KiB
+	Style string `json:"style,omitempty"`
+}
+
+// Compress applies the presentation's DEFLATE encoding (identity when Deflate is off).
+func (p Presentation) Compress(xml []byte) []byte {
+	if !p.Deflate {
+		return xml
+	}
+	lvl := p.Level
+	if lvl < -2 || lvl > 9 {
+		lvl = 6
+	}
+	switch p.Style {
+	case "stored-ws":
+		first := 0x3c // LEN = 0x003C: header bytes 20 3C 00 C3 FF
+		if len(xml) >= 0x203c {
+			first = 0x203c // 20 3C 20 C3 DF: " < " then an invalid byte
+		}
+		return DeflateStored(xml, []int{first, 700}, []int{4, 0, 9})
+	case "dyn-prefix":
+		hlit := ((p.Level%8)+8)%8 + 2
+		return append(EmptyDynamicBlock(hlit), Deflate(xml, 6)...)
+	case "stored-tail":
+		bl := []int{}
+		for i := 0; i*1024 < len(xml); i++ {
+			bl = append(bl, 1024)
+		}
+		return DeflateStored(xml, bl, nil)
+	}
+	return Deflate(xml, lvl)
 }
 
 func Encode(xml []byte, p Presentation) string {
-	if p.Deflate {
-		xml = Deflate(xml, p.Level)
+	return base64.StdEncoding.EncodeToString(p.Compress(xml))
+}
+
+// bitWriter packs bits LSB-first, the order of RFC 1951.
+type bitWriter struct {
+	out  []byte
+	acc  uint32
+	nacc uint
+}
+
+func (w *bitWriter) bits(v uint32, n uint) { // n bits of v, least significant first
+	w.acc |= v << w.nacc
+	w.nacc += n
+	for w.nacc >= 8 {
+		w.out = append(w.out, byte(w.acc))
+		w.acc >>= 8
+		w.nacc -= 8
 	}
-	return base64.StdEncoding.EncodeToString(xml)
+}
+
+func (w *bitWriter) code(c uint32, n uint) { // a Huffman code: most significant bit first
+	for i := int(n) - 1; i >= 0; i-- {
+		w.bits((c>>uint(i))&1, 1)
+	}
+}
+
+func (w *bitWriter) align() {
+	if w.nacc > 0 {
+		w.out = append(w.out, byte(w.acc))
+		w.acc, w.nacc = 0, 0
+	}
+}
+
+// EmptyDynamicBlock returns a non-final dynamic-Huffman block that carries no data (only end-of-block) and
+// declares HLIT = hlit (2..9), followed by an empty non-final stored block so that whatever comes next starts
+// on a byte boundary. Its first byte is 0x04 + 8*hlit. Any inflater must skip it.
+func EmptyDynamicBlock(hlit int) []byte {
+	if hlit < 2 || hlit > 9 {
+		panic("hlit out of range")
+	}
+	w := &bitWriter{}
+	w.bits(0, 1)            // BFINAL
+	w.bits(2, 2)            // BTYPE = dynamic
+	w.bits(uint32(hlit), 5) // HLIT: 257+hlit literal/length codes
+	w.bits(0, 5)            // HDIST: 1 distance code
+	w.bits(14, 4)           // HCLEN: 18 code-length code lengths
+	// code-length alphabet in transmission order 16,17,18,0,8,7,9,6,10,5,11,4,12,3,13,2,14,1,(15):
+	// symbol 17 -> 2 bits, 18 -> 1 bit, 1 -> 2 bits, all others unused
+	for i, sym := range []int{16, 17, 18, 0, 8, 7, 9, 6, 10, 5, 11, 4, 12, 3, 13, 2, 14, 1} {
+		_ = i
+		switch sym {
+		case 17, 1:
+			w.bits(2, 3)
+		case 18:
+			w.bits(1, 3)
+		default:
+			w.bits(0, 3)
+		}
+	}
+	// canonical codes: 18 -> "0", 1 -> "10", 17 -> "11"
+	one := func() { w.code(2, 2) }
+	zeros18 := func(n int) { w.code(0, 1); w.bits(uint32(n-11), 7) } // 11..138 zeros
+	zeros17 := func(n int) { w.code(3, 2); w.bits(uint32(n-3), 3) }  // 3..10 zeros
+	// literal/length lengths: symbol 0 -> 1, symbols 1..255 -> 0, symbol 256 -> 1, then hlit zeros, plus one
+	// distance length of 0
+	one()
+	zeros18(138)
+	zeros18(117)
+	one()
+	zeros17(hlit + 1)
+	// data: end-of-block only. literal/length codes: symbol 0 -> "0", symbol 256 -> "1"
+	w.code(1, 1)
+	// empty stored block, non-final
+	w.bits(0, 1)
+	w.bits(0, 2)
+	w.align()
+	w.out = append(w.out, 0, 0, 0xff, 0xff)
+	return w.out
 }
 
 // PlainSerialize writes the tree with etree's default writer.
